@@ -193,8 +193,8 @@ def exhaustive(sh, N, cap_prod):
 
 def run(sh):
     from bycycle.cyclepoints import find_extrema, find_zerox
-    N = 13 if sh.tier == 'quick' else 19
-    exhaustive(sh, N, 64 if sh.tier == 'quick' else 2048)
+    N = 13 if sh.tier == 'quick' else 17
+    exhaustive(sh, N, 64 if sh.tier == 'quick' else 1024)
     rng = gen.rng_for(sh.seed, PROP, sh.shard)
     K = 50 if sh.tier == 'quick' else 2500
     for it in range(K):
